@@ -563,7 +563,7 @@ impl Harness for C18 {
                 ("mapper_first_appearance_not_sorted", 1_000),
                 ("mapper_unseen_letter_exists", 100),
                 ("mapper_extension_by_seen_category", 500),
-                // many categories per column (round 2); quick-tier counts are 1.3x .. 4x these
+                // many categories per column (round 2); quick-tier counts are 1.02x .. 4x these
                 ("many_layout_cases", 200_000),
                 ("many_every_category_once", 2_000),
                 ("many_one_category_repeated", 200_000),
